@@ -11,6 +11,10 @@ def R(name, pkg, test, q, t, qto=300, tto=1500, shards=8, **kw):
              quick=dict(checks=q, timeout=qto), thorough=dict(checks=t, shards=shards, timeout=tto))
     if "race" in kw:
         d["race"] = kw.pop("race")
+    if "quick" in kw:
+        d["quick"].update(kw.pop("quick"))
+    if "thorough" in kw:
+        d["thorough"].update(kw.pop("thorough"))
     d["common"] = kw
     return d
 
@@ -117,5 +121,29 @@ PROPS["C03"] = dict(
     assumptions=["the adversary cannot forge signatures or break the Noise key exchange", "a lifted signature whose signed data differs from the transcript cannot verify (collision resistance)"],
     subs=[
         R("C03.forgery", "ke", "TestC03Forgery", 2500, 120000, steps=30),
+    ],
+)
+
+PROPS["C02"] = dict(
+    level="exploration",
+    technique="model-based property testing (rapid state machines) with the harness as a Dolev-Yao network over real sessions and channels; tag ledger, counter-uniqueness and plaintext-marker oracles",
+    level_text="Generated adversary action sequences (deliver/replay/reorder/cross-feed/bit-flip/truncate/splice/inject) over every byte string emitted by three real session pairs and by real channel pairs across rekeys; every accepted plaintext is checked against the ledger of what the authenticated peer sent, every emitted counter for uniqueness per session, every emitted byte string for plaintext markers. Holds on everything generated.",
+    level_note="Symbolic adversary (cannot break AEAD/Noise). The 2^32 message limit is reached through the verif-tagged hook VerifSetSendCounter. Channel-level sub-properties run on real timers with short intervals.",
+    design_ref="4/C02",
+    assumptions=["the adversary cannot forge AEAD tags", "channel-level checks use real timers with rekey interval ~150 ms"],
+    subs=[
+        R("C02.session_dolev_yao", "ke", "TestC02Session", 1500, 80000, steps=40),
+    ],
+)
+
+PROPS["C05"] = dict(
+    level="exploration",
+    technique="property-based testing (rapid) over acceptance predicates, handshake roles, start timings and intrusions on real channels wired through a harness-owned network; oracle: never-ready/never-deliver/never-encrypt for rejected keys and remote-key continuity",
+    level_text="Generated predicate/role/timing/intrusion configurations run on real p2pke channels (real timers, 5 ms backoff); every Send return, delivery, emitted ciphertext and RemoteKey() observation is checked against the predicates and the continuity rule. Holds on everything generated; negative outcomes are observed for a 300 ms window (60 retransmission intervals).",
+    level_note="Real timers; 'never' is observed over a bounded window. Thresholds are ~30x the healthy latency.",
+    design_ref="4/C05",
+    assumptions=["a 300 ms observation window (60 handshake retransmission intervals) stands for 'never' in negative outcomes"],
+    subs=[
+        R("C05.accept_and_continuity", "kechan", "TestC05AcceptAndContinuity", 240, 8000, shrink=6, qto=600, tto=3000, shards=8, quick=dict(checks=240, shards=6, timeout=600)),
     ],
 )
